@@ -2,6 +2,7 @@
 import hashlib
 import json
 import os
+import re
 import sys
 import time
 
@@ -72,6 +73,23 @@ class Ctx:
                 self.ob(rule, "floor/" + what, False, "only %d instances of %s found, %d were confirmed by hand on the reference tree" % (count, what, floor), nontrivial=False)
             else:
                 raise Unusable("%s: analysis floor for %s not met (%d < %d)" % (rule, what, count, floor))
+
+    def call(self, fn, *args, **kwargs):
+        """run one rule function; a rule that cannot judge this tree (an Unusable it raises, a missing anchor inside
+        it, an internal error) becomes one *undecided* obligation of its own, so that what the other rules of the
+        property found is still reported (a violation wins over undecided, undecided over holds)"""
+        rule = next((a for a in args if isinstance(a, str) and re.match(r"^R\d+[a-z]?$", a)), None) or kwargs.get("rule") or "R0"
+        try:
+            return fn(self, *args, **kwargs)
+        except Exception as e:                                            # incl. facts.Unusable
+            import traceback
+            tb = traceback.extract_tb(e.__traceback__)
+            last = tb[-1] if tb else None
+            where = "%s:%d" % (os.path.basename(last.filename), last.lineno) if last else "?"
+            kind = "cannot judge this tree" if e.__class__.__name__ == "Unusable" else "internal error of the rule (%s)" % e.__class__.__name__
+            self.ob(rule, "undecided/%s%s" % (getattr(fn, "__name__", "rule"), ("/" + self.cfg) if self.cfg else ""), None,
+                    "%s: %s at %s: %s" % (getattr(fn, "__name__", "rule"), kind, where, str(e)[:300]), nontrivial=False)
+            return None
 
     def control(self, rule, name, fired, expected):
         self.controls.append({"rule": rule, "control": name, "fired": fired, "expected": expected})
